@@ -193,6 +193,27 @@ def run(S, tier, rep):
                    "coordinate %s is %s, expected the cell-centre grid dx/2 + i*dx along array axis %d" % ("xyz"[c], short(v), dim - 1 - c) if not ok
                    else "x_%s = dx/2 + i*dx varies only along array axis %d" % ("xyz"[c], dim - 1 - c),
                    key="C05.axes|%d|%d|%s" % (dim, c, short(v, 120)))
+    # "every differential operator offered on the grid ... with the documented ... convention": the moment conditions above are
+    # statements about the deep-interior stencil; the operator as offered also has a region (interior, ghost ring reset) and must
+    # leave its operand alone.  Decided by the catalogue rule of C13 for the operators covered here.
+    from ..report import Report
+    from .c13 import check_entry
+    from .common import CATALOGUE
+    used = ("gen_diffusion_flux_pyst_kernel_2d", "gen_diffusion_flux_pyst_kernel_3d", "gen_curl_pyst_kernel_3d", "gen_divergence_pyst_kernel_3d",
+            "gen_inplane_field_curl_pyst_kernel_2d", "gen_outplane_field_curl_pyst_kernel_2d", "gen_vorticity_stretching_flux_pyst_kernel_3d",
+            "gen_update_vorticity_from_velocity_forcing_pyst_kernel_2d", "gen_update_vorticity_from_velocity_forcing_pyst_kernel_3d",
+            "gen_update_vorticity_from_penalised_velocity_pyst_kernel_2d", "gen_update_vorticity_from_penalised_velocity_pyst_kernel_3d",
+            "gen_advection_flux_conservative_eno3_pyst_kernel_2d", "gen_advection_flux_conservative_eno3_pyst_kernel_3d")
+    tmp = Report("C05", "other")
+    for e in CATALOGUE:
+        if e.gen in used:
+            check_entry(S, e, tmp, pid="C05", rules=("a", "b", "c"))
+    for o in tmp.obligations:
+        o = dict(o, rule="C05.offered", nontrivial=False)
+        if "key" in o:
+            o["key"] = "C05.offered|" + o["key"]
+        rep.obligations.append(o)
+    rep.require_min("C05.offered", 40)
     rep.require_min("C05.moment", 35)
     rep.require_min("C05.eno3", 20)
     rep.require_min("C05.axes", 5)
